@@ -62,8 +62,6 @@ theorem npan_emitResults : ∀ (f : Nat) (s : Sess), NPan (Sess.emitResults f s)
     · split
       · exact npan_emitResults f _
       · trivial
-      · rename_i p m1 h
-        exact (popData_np s.m p (by rw [h])).elim
     · trivial
 
 theorem npan_contextClose (s : Sess) (fuel : Nat) : NPan (s.contextClose fuel) := by
@@ -193,9 +191,9 @@ theorem buildSource_never_panics (fuel : Nat) (mode : Mode) (toks : List Tok) (s
   | ok s2 =>
     intro _
     simp only
-    have h2 := npan_contextClose { s2 with constUndo := s2.constUndo.drop (s2.constUndo.length - s.constUndo.length) } fuel
+    have h2 := npan_contextClose { s2 with constUndo := s2.constUndo.drop (s2.constUndo.length - s.constUndo.length), m := forgetBuildLog s.m s2.m } fuel
     revert h2
-    cases Sess.contextClose fuel { s2 with constUndo := s2.constUndo.drop (s2.constUndo.length - s.constUndo.length) } with
+    cases Sess.contextClose fuel { s2 with constUndo := s2.constUndo.drop (s2.constUndo.length - s.constUndo.length), m := forgetBuildLog s.m s2.m } with
     | ok s3 => intro _ h; cases h
     | err e s3 => intro _ h; cases h
     | panic q s3 => intro h2; exact h2.elim
